@@ -106,13 +106,18 @@ class Branch(Term, metaclass=abc.ABCMeta):
     def __repr__(self):
         return f'{self.__class__.__name__}[{self._name}]'
 
+    def reset(self) -> None:
+        """Discard any outstanding replicas."""
+        self._queue.clear()
+
     @classmethod
     def fork(cls, term: Term, szout: int = 1) -> typing.Iterable[Term]:
         """Method for creating a sequence of terms implementing the forking strategy."""
         if szout > 1:
             replicas = szout - 1
             queue = collections.deque(maxlen=replicas)
-            return [Push(queue, term, replicas), *(Pop(queue, repr(term)) for _ in range(replicas))]
+            push = Push(queue, term, replicas)
+            return [push, *(Pop(queue, repr(term), push) for _ in range(replicas))]
         return [term]
 
 
@@ -126,7 +131,8 @@ class Push(Branch):
         self._replicas: int = replicas
 
     def __call__(self, arg: typing.Any) -> typing.Any:
-        assert not self._queue, 'Outstanding elements'
+        if self._queue:  # already produced on behalf of a replica evaluated earlier
+            return self._queue.popleft()
         value = self._term(arg)
         for _ in range(self._replicas):
             self._queue.append(value)  # assuming we are duplicating just the reference
@@ -136,8 +142,14 @@ class Push(Branch):
 class Pop(Branch):
     """Helper branch term for accessing the replicated values created in parallel branch."""
 
+    def __init__(self, queue: typing.Deque[typing.Any], name: str, push: Push):
+        super().__init__(queue, name)
+        self._push: Push = push
+
     def __call__(self, arg: typing.Any) -> typing.Any:
-        return self._queue.popleft()
+        # the evaluation order of the parallel branches is not known upfront - whichever replica is called first
+        # produces the value
+        return self._push(arg)
 
     def __del__(self):
         assert not self._queue, 'Outstanding elements'
@@ -158,17 +170,25 @@ class Expression(Term):
         assert len(dag) > 0 and dag[-1].szout == 0 and not dag[0].args, 'Invalid DAG'
         providers: typing.Mapping[Term, typing.Deque[Term]] = {n.term: collections.deque([n.term]) for n in dag}
         providers[dag[0].term] = collections.deque(Branch.fork(dag[0].term, dag[0].szout))  # source may fan-out as well
+        self._forks: list[Term] = list(providers[dag[0].term])
 
         for node in dag[1:]:
             args = [providers[a].popleft() for a in node.args]
             term = (Zip if len(args) > 1 else Chain)(providers[node.term].popleft(), *args)
             providers[node.term].extend(Branch.fork(term, node.szout))
+            self._forks.extend(providers[node.term])
         assert len(providers[dag[-1].term]) == 1
         self._term: Term = providers[dag[-1].term].popleft()
         assert not any(providers.values()), 'Outstanding providers'
 
     def __call__(self, arg: typing.Any) -> typing.Any:
-        return self._term(arg)
+        try:
+            return self._term(arg)
+        except BaseException:
+            for term in self._forks:  # drop replicas produced by the interrupted evaluation
+                if isinstance(term, Branch):
+                    term.reset()
+            raise
 
     def __repr__(self):
         return repr(self._term)
